@@ -53,10 +53,7 @@ theorem afterLoop_upsert_eq (now : Int) (spec document nowV : Val) (ss dfs : Fie
         match insertDoc now (upsertIdv ss dfs c3).2 built with
         | .error e => ((upsertIdv ss dfs c3).2.markStored
             (insertStored now (upsertIdv ss dfs c3).2 built), .error e)
-        | .ok (c5, newId) =>
-          ((match storeKey newId with
-            | .ok k => { c5 with od := c5.od ++ [k] }
-            | .error _ => c5), .ok ⟨1, 0, some newId, false⟩) := by
+        | .ok (c5, newId) => (c5, .ok ⟨1, 0, some newId, false⟩) := by
   unfold afterLoop
   simp only [Bool.not_true, Bool.false_or, Nat.lt_irrefl, gt_iff_lt, decide_false,
     Bool.false_eq_true, if_false]
@@ -98,7 +95,6 @@ theorem afterLoop_built (now : Int) (spec document nowV : Val) (ss dfs : Fields)
           obtain ⟨h1, h2⟩ := insert_fresh_doc now ic.2 c5 bf newId (ht.trans hn) hi
           refine ⟨expanded, bf, newId, rfl, hb, ?_, h2, rfl⟩
           rw [← hc, ← hd, ← h1]
-          split <;> rfl
         | _ => simp [insertDoc] at hi
 
 /-- a successful upsert call whose filter selects nothing went through the upsert branch, on the
